@@ -214,6 +214,7 @@ def _spd_int(rng, n, lo=-2, hi=2, ridge=1):
 
 class C08(PropertyCheck):
     pid = "C08"
+    loop_tie_modules = ["VecFit"]  # fit_util + FitDataset/FitImaging glue, regenerated by translate_vec (design_notes/TIES_C08vec.md)
     title = "fit statistics and evidence"
     rtol = Fraction(1, 10 ** 9)
     nontrivial_rule = (
